@@ -16,7 +16,7 @@ RULE = (
 REQUIRED = ["summary_checked", "linkage_deficiencies_checked", "weakly_reversible_true",
             "weakly_reversible_false", "deficiency_positive", "multi_linkage_networks",
             "zero_complex_networks", "textbook_checked", "graph_tagged_by_bipartite_only", "graph_tagged_by_kind_only",
-            "alt_call_order_checked", "analyzer_reused_after_edit_checked"]
+            "alt_call_order_checked", "analyzer_reused_after_edit_checked", "scc_chain_networks"]
 ASSUMPTIONS = [
     "per-class deficiency compared with the docstring definition n_l - 1 - s_l (exact rank of the class's reaction vectors)",
     "linkage-class list compared as a multiset (class order is not part of the statement)",
@@ -213,6 +213,33 @@ def run(ctx):
             if ctx.mine(idx):
                 check_network(ctx, net, tag=tag)
         ctx.exhaustive[tag] = True
+    # linkage classes built from strongly connected blocks (reversible pairs, 3-cycles) joined by one-way reactions, next to
+    # other classes: every complex lies on a cycle, yet the class is not weakly reversible
+    names = [chr(ord("A") + i) for i in range(12)]
+    for t in range(40 if ctx.quick else 600):
+        pool = list(names)
+        rng.shuffle(pool)
+        net = []
+        for cls in range(rng.randint(2, 3)):
+            blocks = []
+            for b in range(rng.randint(1, 3)):
+                size = rng.choice([2, 2, 3])
+                if len(pool) < size:
+                    break
+                cx = [pool.pop() for _ in range(size)]
+                blocks.append(cx)
+                for i_ in range(size):
+                    net.append(W.rxn({cx[i_]: 1}, {cx[(i_ + 1) % size]: 1}))
+            for b1, b2 in zip(blocks, blocks[1:]):
+                if rng.random() < 0.85:
+                    net.append(W.rxn({rng.choice(b1): 1}, {rng.choice(b2): 1}))        # one-way bridge
+                    if rng.random() < 0.25:
+                        net.append(W.rxn({rng.choice(b2): 1}, {rng.choice(b1): 1}))    # ... sometimes closed again
+        if rng.random() < 0.5:
+            rng.shuffle(net)
+        if len(net) >= 2:
+            ctx.count("scc_chain_networks")
+            check_network(ctx, net, tag="strongly connected blocks joined by one-way reactions")
     if ctx.quick:
         rx = W.all_reactions(("A", "B", "C"), (0, 1, 2))
         for _ in range(600):
